@@ -30,6 +30,7 @@
 EXTENDS Integers, Sequences, FiniteSets, TLC, Functors, Json, RamData
 \* RamData defines: RamProg  == [relations, main, subroutines]
 \*                  RamEDBs  == << [rel |-> <<tuples>>] ... >>      input facts per behaviour
+\*                  RamClearPolicy == "interp" | "compiled";  RamStored == <<relations written by an output IO>>
 \*                  RamExpect == << [have |-> BOOLEAN, m |-> [rel |-> <<tuples>>]] ... >>  Model(P, EDB) from spec/Datalog.tla
 
 SeqSet(s) == {s[i] : i \in 1..Len(s)}
@@ -258,7 +259,9 @@ Query == /\ Running /\ S.k = "Query"
                         ELSE glog
          /\ Done(Pop(stack)) /\ UNCHANGED <<ei, vars, outs>>
 Clear == /\ Running /\ S.k = "Clear"
-         /\ db' = [db EXCEPT ![S.rel] = {}] /\ Ev("Clear", 0, FALSE)
+         \* generated C++ (Synthesiser.cpp visit_ Clear) does not clear a stored (output) relation; the interpreter does
+         /\ db' = IF RamClearPolicy = "compiled" /\ S.rel \in SeqSet(RamStored) THEN db ELSE [db EXCEPT ![S.rel] = {}]
+         /\ Ev("Clear", 0, FALSE)
          /\ Done(Pop(stack)) /\ UNCHANGED <<ei, vars, outs, oob, glog>>
 Swap == /\ Running /\ S.k = "Swap"
         /\ db' = [db EXCEPT ![S.a] = db[S.b], ![S.b] = db[S.a]] /\ Ev("Swap", 0, FALSE)
